@@ -3,7 +3,7 @@ loop, a blown stack inside the tree under check) must not block a check for ever
 import multiprocessing
 import os
 
-TASK_TIMEOUT = float(os.environ.get("VERIF_TASK_TIMEOUT", "1800"))
+TASK_TIMEOUT = float(os.environ.get("VERIF_TASK_TIMEOUT", "7200"))
 
 
 class Stuck(Exception):
